@@ -12,6 +12,7 @@ CONSTANTS
     Dedup = FALSE
     FailCleansUp = TRUE
     MaxDeaths = 0
+    CacheLookup = FALSE
     StopAtFirstError = FALSE
 INVARIANTS
     TypeOK
